@@ -193,6 +193,31 @@ def r_clear(mod, rep, R='R13.4'):
     wants = [('call', A(N('self'), 'functor'), (rec('left'), rec('right')), ()),
              ('call', N('Functor'), (rec('left'), A(N('self'), 'slash'), rec('right')), ())]
     ok = len(ps) == 1 and ps[0][0].ret in wants
+    if not ok and ps:
+        # (a) the functor itself is handed back when both sides came back as the very objects they were
+        def same_side(conds, side):
+            return any(c == ('cmp', 'is', rec(side), A(N('self'), side)) and pol for c, pol, _ in conds)
+        ok = all((st_.ret in wants) or (st_.ret == N('self') and same_side(st_.conds, 'left') and same_side(st_.conds, 'right'))
+                 for st_, o_ in ps if o_ == 'return') and any(st_.ret in wants for st_, o_ in ps)
+    if not ok and len(ps) == 1 and ps[0][0].ret is not None:
+        # (b) through a structural map shared with other walks: self.map(lambda atom: atom.clear_features(*args)), where
+        # Atom.map(f) is f(self) and Functor.map(f) rebuilds the functor from left.map(f) and right.map(f)
+        import re as _re
+        r_ = ps[0][0].ret
+        if r_[0] == 'call' and r_[1] == A(N('self'), 'functor') and len(r_[2]) == 2 and all(x[0] == 'call' and x[1][0] == 'attr' and len(x[2]) == 1 and x[2][0][0] == 'lambda' for x in r_[2]):
+            l_, rr_ = r_[2]
+            m2 = l_[1][2]
+            lam = l_[2][0]
+            txt = lam[1].replace(' ', '')
+            okl = l_[1] == A(A(N('self'), 'left'), m2) and rr_[1] == A(A(N('self'), 'right'), m2) and rr_[2] == l_[2] and \
+                bool(_re.match(r'^lambda(\w+):\1\.%s\(%s%s\)$' % (_re.escape(meth), '\\*' if fn.args.vararg else '', _re.escape(va)), txt))
+            am, fm = mod.get('Atom.' + m2, required=False), mod.get('Functor.' + m2, required=False)
+            if okl and am is not None and fm is not None and len(am.args.args) == 2 and len(fm.args.args) == 2:
+                fa, ff = am.args.args[1].arg, fm.args.args[1].arg
+                pa = [st_.ret for st_, o_ in SymExec(am).run() if o_ == 'return']
+                pf = [st_.ret for st_, o_ in SymExec(fm, no_inline=(m2,)).run() if o_ == 'return']
+                ok = pa == [('call', N(fa), (N('self'),), ())] and pf == [('call', A(N('self'), 'functor'), (
+                    ('call', A(A(N('self'), 'left'), m2), (N(ff),), ()), ('call', A(A(N('self'), 'right'), m2), (N(ff),), ())), ())]
     rep.check(ok, R, w, 'Functor:clear_features', 'a functor is rebuilt with the same slash from the erased left and right sides',
               'Functor.%s returns %s' % (meth, show(ps[0][0].ret) if ps and ps[0][0].ret else '?'))
     r_functor_builders(mod, rep, R)
